@@ -127,9 +127,35 @@ def run_cases(modname, cases, nproc=None):
         return []
     if nproc <= 1 or len(cases) == 1:
         return [_worker((modname, c)) for c in cases]
+    # ProcessPoolExecutor rather than Pool.map: when a worker process dies (killed by the OOM killer, a segfault in a
+    # compiled extension) Pool.map waits for ever, the executor raises BrokenProcessPool.  Cases that were not
+    # finished are run again in a fresh pool (twice at most); a case that still has no result is counted like a
+    # time-out (reported, never judged).
+    from concurrent.futures import ProcessPoolExecutor
+    from concurrent.futures.process import BrokenProcessPool
     ctx = mp.get_context("fork")
-    with ctx.Pool(min(nproc, len(cases))) as pool:
-        return pool.map(_worker, [(modname, c) for c in cases], chunksize=1)
+    results = [None] * len(cases)
+    todo = list(range(len(cases)))
+    for attempt in range(3):
+        if not todo:
+            break
+        try:
+            with ProcessPoolExecutor(max_workers=min(nproc, len(todo)), mp_context=ctx) as ex:
+                futs = {i: ex.submit(_worker, (modname, cases[i])) for i in todo}
+                for i, f in futs.items():
+                    try:
+                        results[i] = f.result()
+                    except BrokenProcessPool:
+                        pass
+                    except Exception as exc:      # pickling problems and the like: a harness failure, reported
+                        results[i] = {"nontrivial": False, "tags": ["harness_error"], "violations": [],
+                                      "mismatches": [{"what": "harness_error", "detail": "%s: %s" % (type(exc).__name__, exc)}]}
+        except BrokenProcessPool:
+            pass
+        todo = [i for i in todo if results[i] is None]
+    for i in todo:
+        results[i] = {"nontrivial": False, "tags": ["case_timeout", "worker_died"], "violations": [], "mismatches": [], "timeout": True}
+    return results
 
 
 def load_known():
